@@ -196,3 +196,26 @@ func verifLemmaComplementInvolution(p *Pairing, l Letter) (back Letter, ok1, ok2
 //@   assigns fresh
 //@   loop 1 invariant 0 <= idx && idx <= 256
 //@   loop 1 invariant forall k int :: 0 <= k && k < idx && pairs.ok[k] && pairs.pair[k] != k ==> a.valid[k] && a.valid[pairs.pair[k]]
+
+// ---- Complementor as seen through the interface ------------------------------------
+// ctab(c, b): entry b of the complement table; tabArr(c): identity of the table's storage.
+// The law below is what every Complementor must satisfy; it is proved for the package's own
+// implementation (nucleic / Pairing) in verifLemmaNucleicTable.
+//@ spec ctab(c Complementor, b int) int
+//@ spec tabArr(c Complementor) int
+//@ axiom forall c Complementor, b int {ctab(c, b)} :: 0 <= b && b < 256 ==> 0 <= ctab(c, b) && ctab(c, b) < 256 && (ctab(c, b) < 128 ==> ctab(c, ctab(c, b)) == b)
+//@ spec paired(c Complementor, b int) bool = ctab(c, b) < 128
+
+//@ func (Complementor).ComplementTable
+//@   ensures len(result) == 256 && arr(result) == tabArr(self) && forall b int :: 0 <= b && b < 256 ==> result[b] == ctab(self, b)
+//@   assigns nothing
+
+// The package's own implementation satisfies the interface-level law.
+//@ func verifLemmaNucleicTable
+//@   property C17 C05
+//@   lemma
+//@   requires n != nil && wfPairing(n.Pairing)
+//@   ensures len(t) == 256 && 0 <= t[b] && t[b] < 256 && (t[b] < 128 ==> t[t[b]] == b)
+func verifLemmaNucleicTable(n *nucleic, b Letter) (t []Letter) {
+	return n.ComplementTable()
+}
